@@ -52,6 +52,8 @@ static int rnd_bridge(Rng &r, int sid) {
     return (sid + 1 + (int)r.below(3)) % 6;
 }
 
+// the link's MTU changes in place (same interface context, the daemon re-sizes its receive buffer)
+static Op op_mtu_change(Rng &r, int node, uint32_t dt) { return mk(OP_ATTR, dt, {node, 0, 0x40000, (int64_t)pick_mtu(r)}); }
 static Op op_discover(Rng &r, int sid, int tos) {
     return mk(OP_DISCOVER, rnd_dt(r), {sid, rnd_bridge(r, sid), tos, rnd_gen(r), r.chance(0.2) ? 0 : (int64_t)rnd_seq(r), 0, 0, 0});
 }
@@ -132,7 +134,7 @@ static Op rnd_lan_op(Rng &r, const Plan &p, const Mix &m, int nstations, int map
     }
     if (in(m.tick)) return mk(OP_TICK, rnd_dt(r), {node});
     if (in(m.stall)) return mk(OP_STALL, rnd_dt(r), {r.chance(0.5) ? node : -1, r.chance(0.7) ? r.range(1, 900) : r.range(1000, 120000)});
-    if (in(m.attr)) return mk(OP_ATTR, rnd_dt(r), {node, (int64_t)(r.next() >> 1), (int64_t)(r.next() & 0x1FFFF & ~(uint64_t)G_MAC)});
+    if (in(m.attr)) return r.chance(0.25) ? op_mtu_change(r, node, rnd_dt(r)) : mk(OP_ATTR, rnd_dt(r), {node, (int64_t)(r.next() >> 1), (int64_t)(r.next() & 0x1FFFF & ~(uint64_t)G_MAC)});
     return mk(OP_PARTITION, rnd_dt(r), {r.chance(0.5) ? node : -1, r.chance(0.5) ? r.range(1000, 35000) : r.range(35000, 120000)});
 }
 
@@ -371,6 +373,20 @@ static Plan gen_C06(uint64_t seed, Rng &r) {
         p.ops.push_back(o);
         if (r.chance(0.3)) p.ops.push_back(rnd_lan_op(r, p, m, 3, mapper));
     }
+    if (r.chance(0.08) && p.nodes[0].mtu >= 576 && p.nodes[0].mtu <= 9216) { // the link's MTU changes after the session was opened; then Emits sized for the new link, also over-declared
+        p.family = 4;
+        uint32_t m2 = pick_mtu(r);
+        p.ops.push_back(mk(OP_ATTR, 20, {0, 0, 0x40000, (int64_t)m2}));
+        size_t fit2 = (m2 - 34) / 14;
+        for (int e = 0; e < 2; e++) {
+            size_t cnt = e == 0 ? fit2 : (size_t)r.range(1, (int64_t)fit2);
+            Op o = mk(OP_EMIT, (uint32_t)r.range(20, 200), {mapper, br, 0, rnd_seq(r), -1, 0});
+            o.blob = rnd_descs(r, cnt);
+            for (size_t d = 0; d < cnt; d++) if (cnt > 40) o.blob[d * 14 + 1] = 0;
+            if (e == 1 && r.chance(0.6)) { o.blob.resize(std::min<size_t>(cnt, 3) * 14); o.a[4] = r.pickl({0xFFFF, 0x7FFF, (int64_t)fit2 + 1}); }
+            p.ops.push_back(o);
+        }
+    }
     p.tail_ms = 200;
     return p;
 }
@@ -425,6 +441,11 @@ static Plan gen_C07(uint64_t seed, Rng &r) {
             if (r.chance(0.15)) p.ops.push_back(mk(OP_QLT, 5, {mapper, br, 0, rnd_seq(r), 0x11, 0, 0}));
         }
         if (r.chance(0.15)) { p.ops.push_back(mk(OP_RESET, 10, {mapper, -1, 0, 0, 0, 0})); p.ops.push_back(mk(OP_DISCOVER, 10, {mapper, br, 0, rnd_gen(r), rnd_seq(r), 0, 0, 0})); }
+        if (k > cap && r.chance(0.4)) { // one Query only (a partial drain), then the observation recorded last / first / in the middle arrives once more
+            p.ops.push_back(mk(OP_QUERY, (uint32_t)r.range(5, 60), {mapper, br, 0, rnd_seq(r), 0}));
+            int64_t again = r.chance(0.5) ? base - 1 : (r.chance(0.5) ? base - (int64_t)k : base - 1 - r.range(0, (int64_t)k - 1));
+            p.ops.push_back(mk(OP_FLOOD, (uint32_t)r.range(1, 30), {1, again, 0, 0, 0}));
+        }
         p.ops.push_back(mk(OP_QUERY, (uint32_t)r.range(5, 60), {mapper, br, 0, rnd_seq(r), 20}));
         p.ops.push_back(mk(OP_QUERY, 400, {mapper, br, 0, rnd_seq(r), 20})); // a later Query: must not repeat or invent anything
         base += 50;
@@ -451,7 +472,7 @@ static Plan gen_C08(uint64_t seed, Rng &r) {
             switch (r.below(4)) { case 0: off = r.pickl({0, 1, 0x7FFF, 0x8000, 0xFFFF}); break; case 1: off = (int64_t)(n.mtu - 34) * r.range(1, 3) + r.range(-1, 1); break; case 2: off = r.range(0, 300); break; default: off = r.range(0, 0xFFFF); break; }
             p.ops.push_back(mk(OP_QLT, (uint32_t)r.range(5, 80), {mapper, br, 0, r.chance(0.1) ? 0 : (int64_t)rnd_seq(r), r.chance(0.8) ? r.pickl({0x0E, 0x11, 0x13}) : r.range(0, 255), off & 0xFFFF, tos}));
         } else if (x < 10) { p.ops.push_back(mk(OP_RESET, 10, {mapper, -1, r.chance(0.7) ? 0 : 1, 0, 0, 0})); }
-        else if (x < 11) p.ops.push_back(mk(OP_ATTR, 5, {0, (int64_t)(r.next() >> 1), G_ICON | G_FNAME | G_HWID}));
+        else if (x < 11) p.ops.push_back(r.chance(0.35) ? op_mtu_change(r, 0, 5) : mk(OP_ATTR, 5, {0, (int64_t)(r.next() >> 1), G_ICON | G_FNAME | G_HWID}));
         else if (r.chance(0.5)) { Op o = mk(OP_QLT, 5, {mapper, br, 0, rnd_seq(r), 0x0E, r.range(0, 2000), 0}); Fault f; f.kind = r.chance(0.5) ? F_DUP : F_DELAY; f.a = r.range(1, 20); o.f.push_back(f); p.ops.push_back(o); }
         else { // another station asks as well (its own sequence numbers), while the mapper's session is open
             int other = (mapper + 1 + (int)r.below(2)) % 4;
@@ -537,6 +558,32 @@ static Plan gen_C10(uint64_t seed, Rng &r) {
             left -= (int64_t)c;
         }
         p.ops.push_back(mk(OP_QUERY, (uint32_t)r.range(300, 900), {mapper, -1, B, rnd_seq(r), 40}));
+        p.tail_ms = 600;
+        return p;
+    }
+    if (r.chance(0.06)) { // B holds a few more observations than one QueryResp carries; one Query; A is ordered to send the most recent (or the first) frame again; Query
+        p.family = 4;
+        p.nodes.resize(2);
+        int A = (int)r.below(2), B = 1 - A;
+        if (r.chance(0.7)) p.nodes[B].mtu = (uint32_t)r.pickl({576, 577, 1500, 1500});
+        p.nodes[A].proc_us = 0; p.nodes[B].proc_us = 0;
+        size_t capB = (p.nodes[B].mtu - 34) / 20, perA = (p.nodes[A].mtu - 34) / 14;
+        size_t want = capB + (size_t)r.range(0, 5);
+        if (want < 2) want = 2;
+        Bytes all = rnd_descs(r, want, nullptr, &nm[B]);
+        for (size_t d = 0; d < want; d++) all[d * 14 + 1] = 0;
+        for (size_t off = 0; off < want; off += perA) {
+            size_t c = std::min(perA, want - off);
+            Op e = mk(OP_EMIT, (uint32_t)r.range(20, 60), {mapper, -1, A, rnd_seq(r), -1, 0});
+            e.blob.assign(all.begin() + (long)(off * 14), all.begin() + (long)((off + c) * 14));
+            p.ops.push_back(e);
+        }
+        p.ops.push_back(mk(OP_QUERY, (uint32_t)r.range(300, 600), {mapper, -1, B, rnd_seq(r), 0}));
+        size_t which = r.chance(0.6) ? want - 1 : (r.chance(0.5) ? 0 : (size_t)r.below(want));
+        Op e2 = mk(OP_EMIT, (uint32_t)r.range(20, 100), {mapper, -1, A, rnd_seq(r), -1, 0});
+        e2.blob.assign(all.begin() + (long)(which * 14), all.begin() + (long)((which + 1) * 14));
+        p.ops.push_back(e2);
+        p.ops.push_back(mk(OP_QUERY, (uint32_t)r.range(300, 600), {mapper, -1, B, rnd_seq(r), 40}));
         p.tail_ms = 600;
         return p;
     }
@@ -635,6 +682,19 @@ static Plan gen_C12(uint64_t seed, Rng &r) {
         int mapper = 0;
         int nops = (int)r.range(3, 30);
         if (r.chance(0.3)) { keepalive_ops(r, p, nn); nops = (int)r.range(0, 6); }
+        else if (r.chance(0.06)) { // as many mappers as the session table holds (or one more / one less), then each of them acknowledges us
+            p.family = 3;
+            int M = (int)r.pickl({15, 16, 16, 16, 17});
+            uint16_t g = rnd_gen(r);
+            for (int k = 0; k < M && k < 8; k++) { Op o = mk(OP_DISCOVER, (uint32_t)r.range(1, 60), {k, -1, 0, g, rnd_seq(r), 1, 2, -1}); o.blob = {0}; p.ops.push_back(o); }
+            for (int k = 8; k < M; k++) { Op o = mk(OP_DISCOVER, (uint32_t)r.range(1, 60), {k % 8, -1, 0, (int64_t)((g + 1 + k) & 0xFFFF), rnd_seq(r), 1, 2, -1}); o.blob = {0}; p.ops.push_back(o); } // the same stations under further generations
+            int skip = r.chance(0.7) ? -1 : (int)r.below((uint64_t)M);
+            for (int k = 0; k < M; k++) { if (k == skip) continue; Op o = mk(OP_DISCOVER, (uint32_t)r.range(1, 60), {k % 8, -1, 0, (int64_t)(k < 8 ? g : ((g + 1 + k) & 0xFFFF)), rnd_seq(r), 1, 2, 0}); o.blob = {0}; p.ops.push_back(o); }
+            nops = (int)r.range(0, 4);
+            p.tail_ms = (uint32_t)r.range(3000, 9000);
+            for (int i = 0; i < nops; i++) p.ops.push_back(mk(OP_TICK, (uint32_t)r.range(100, 1500), {0}));
+            return p;
+        }
         for (int i = 0; i < nops; i++) {
             int x = (int)r.below(20);
             uint32_t dt = r.chance(0.5) ? (uint32_t)r.range(0, 300) : (r.chance(0.7) ? (uint32_t)r.range(300, 5000) : (uint32_t)r.range(5000, 70000));
@@ -983,7 +1043,9 @@ Plan generate_plan_indexed(const std::string &prop, uint64_t verif_seed, uint64_
             int k0 = p.ops[j].kind;
             if (k0 == OP_DISCOVER || k0 == OP_EMIT || k0 == OP_QUERY || k0 == OP_QLT || k0 == OP_CHARGE || k0 == OP_HELLO || k0 == OP_PROBE || k0 == OP_RESET || k0 == OP_STRAY) {
                 int64_t N = q.pickl({127, 128, 129, 255, 256, 257, 300});
-                if (tier == "thorough" && q.chance(0.1)) N = q.pickl({32767, 32768, 65535, 65536, 65537});
+                // 16-bit widths only for requests that cost one delivery each (no pauses, no continuation loops, no bursts)
+                bool cheap = k0 == OP_DISCOVER || k0 == OP_CHARGE || k0 == OP_RESET || k0 == OP_PROBE || k0 == OP_STRAY || k0 == OP_QLT || (k0 == OP_QUERY && p.ops[j].a[4] == 0) || (k0 == OP_HELLO && p.ops[j].a[3] <= 1);
+                if (tier == "thorough" && cheap && p.nodes.size() <= 2 && q.chance(0.1)) N = q.pickl({32767, 32768, 65535, 65536, 65537});
                 if (k0 == OP_EMIT && p.ops[j].blob.size() > 14 * 4) N = std::min<int64_t>(N, 300);
                 std::vector<Op> rep;
                 for (int64_t k = 1; k < N; k++) {
